@@ -110,7 +110,7 @@ def main(argv=None):
     reported = 0
     flaky = 0
     for key, vs in unlisted:
-        if reported >= 5:
+        if reported >= 3:
             print("... further violation keys not replayed: %s" % key)
             continue
         v = vs[0]
